@@ -1,5 +1,6 @@
 //! Verification harness for avra-rs: executes the real library on inputs chosen by /verif/check
 //! and prints canonical observations.  Never linked into the repository itself.
+mod enc;
 mod hexw;
 mod tables;
 mod util;
@@ -15,6 +16,8 @@ fn main() {
     let rc = match args[1].as_str() {
         "hex" => hexw::main(&args[2..]),
         "devices" => tables::devices(),
+        "ops" => tables::ops(),
+        "enc" => enc::main(),
         other => {
             eprintln!("unknown command {}", other);
             2
